@@ -85,6 +85,8 @@ def _count(b):
 def _split(specs, block, b, per, **extra):
     cnt = _count(b)
     n = max(1, -(-cnt // per))
+    if n % 2 == 0:
+        n += 1      # flags are the innermost loop: an odd stride mixes sample-flag subsets
     for k in range(n):
         specs.append(dict(block=block, b=b, k=k, n=n, **extra))
 
@@ -124,9 +126,9 @@ def shards(tier, seed):
     for k in range(2):
         specs.append(dict(block="layout", b=dict(N=2, G=1), K=3, topo="all", k=k, n=2))
     if q:
-        lay = [(dict(N=3, G=1), 3, "three", 24), (dict(N=4, G=1), 2, "three", 24)]
+        lay = [(dict(N=3, G=1), 3, "three", 25), (dict(N=4, G=1), 2, "three", 25)]
     else:
-        lay = [(dict(N=3, G=1), 3, "all", 48), (dict(N=4, G=1), 3, "three", 160)]
+        lay = [(dict(N=3, G=1), 3, "all", 49), (dict(N=4, G=1), 3, "three", 161)]
     for b, K, topo, n in lay:
         for k in range(n):
             specs.append(dict(block="layout", b=b, K=K, topo=topo, k=k, n=n))
